@@ -21,12 +21,24 @@ RULE = ('documents: random trees over a 7-tag / 4-id / 3-class / 4-attribute voc
         'document holds: every operator with an operand cut at word / line / dash boundaries (whole value, first line, text after '
         'the last line break, last word, inner words, a dash prefix, two words) or at random, case mangled, every spelling of the i / s '
         'flags and none, double-quoted / single-quoted / unquoted operand, the attribute name case mangled, used alone, with a type, '
-        'doubled on one compound, negated, in :is / :has, before a combinator or in a list.')
+        'doubled on one compound, negated, in :is / :has, before a combinator or in a list. In addition n/4 cases on documents with '
+        'MIXED-CASE ATTRIBUTE NAMES held by the tree: 60% built through the bs4 API (html, html5, xhtml, xml) with a per-document pool '
+        'of 2-3 names in 2-3 spellings each (dataKey / datakey / DATAKEY, ID, Class, hRef, viewBox ...; rarely names differing in a '
+        'non-ASCII letter or look-alike: É / é, KELVIN SIGN / k, LONG S / s), generated attributes re-spelled, two spellings of one '
+        'name on one element, namespaced attributes with a mixed-case local name (html5 / xhtml); 40% written as markup with SVG / '
+        'MathML islands (and HTML inside foreignObject) whose elements carry the attributes the HTML parsing algorithm re-spells '
+        '(viewBox, preserveAspectRatio, gradientUnits, textLength, definitionURL ...), written in any case, parsed by html5lib '
+        '(half of them), html.parser, lxml, lxml-xml, half of the HTML-parsed trees then edited through the API (tag[Name] = value); '
+        'selectors name an attribute the built document holds (75% one whose name has an upper-case letter), spelled as the document '
+        'does, lower-case, upper-case or mangled, as presence test or with any operator / flag, as #id / .class for ID / Class, as '
+        '*|name, ns|name, prefix\\:name for namespaced ones, used alone, with a type, doubled, negated, in :is / :where / :has, around a '
+        'combinator or in a list.')
 
 
-def make_cases(rng, n, stats=None, vstats=None):
+def make_cases(rng, n, stats=None, vstats=None, nstats=None):
     stats = {} if stats is None else stats
     vstats = {} if vstats is None else vstats
+    nstats = {} if nstats is None else nstats
     cases = []
     feats = {}
     while len(cases) < n:
@@ -59,6 +71,8 @@ def make_cases(rng, n, stats=None, vstats=None):
     cases += make_repeat_cases(random.Random(rng.getrandbits(64)), n // 3, stats)
     # structured (multi-word, multi-line, dashed, mixed-case) attribute values, again from a generator of its own
     cases += make_attr_value_cases(random.Random(rng.getrandbits(64)), n // 4, vstats)
+    # mixed-case attribute NAMES held by the tree (API-built, html5lib foreign content, API edits of parsed trees)
+    cases += make_attr_name_cases(random.Random(rng.getrandbits(64)), n // 4, nstats)
     return cases
 
 
@@ -362,14 +376,297 @@ def make_attr_value_cases(rng, n, vstats):
     return cases[:n]
 
 
+# ---------------------------------------------------------------------------------------------
+# attribute NAMES in mixed case: the element side of the name comparison
+# ---------------------------------------------------------------------------------------------
+# An attribute name held by a tree need not be lower case even when the tree is not XML: the HTML parsing algorithm
+# (html5lib) gives the SVG / MathML attributes their mixed-case spelling (viewBox, gradientUnits, definitionURL ...),
+# and whatever is set through the bs4 API (tag['dataKey'] = ..., new_tag(attrs=...), el.attrs[...]) is kept as spelled.
+# In a non-XML tree [name] designates the attributes whose name equals `name` ASCII case-insensitively, whichever side
+# carries the capitals; in an XML tree the names are compared exactly.
+N_BASES = ['title', 'href', 'rel', 'lang', 'data-x', 'datakey', 'itemid', 'viewbox', 'id', 'class', 'textlength']
+N_CAMEL = {'datakey': 'dataKey', 'itemid': 'itemID', 'viewbox': 'viewBox', 'data-x': 'data-X', 'textlength': 'textLength',
+           'id': 'ID', 'class': 'Class', 'href': 'hRef', 'title': 'Title', 'rel': 'REL', 'lang': 'Lang'}
+# not ASCII: U+00C9 / U+00E9 differ although str.lower() maps one to the other; U+212A KELVIN SIGN is not `k` although
+# str.lower() says so; U+017F LONG S is not `s` although str.upper() says so
+N_NON_ASCII = [('dataé', 'dataÉ'), ('datakey', 'dataKey'), ('itemids', 'itemidſ')]
+N_VALUES = ['', 'a', 'b', 'ab', 'a b', 'a-b', 'A', 'aB', 'k1', 'K1', 'urn:x', '0 0 10 10', 'x\ny']
+# the attributes the HTML parsing algorithm re-spells in SVG / MathML content ("adjust SVG / MathML attributes")
+F_ADJUSTED = ['viewBox', 'preserveAspectRatio', 'gradientUnits', 'gradientTransform', 'textLength', 'patternUnits',
+              'startOffset', 'stdDeviation', 'pathLength', 'definitionURL']
+F_PLAIN = ['width', 'title', 'lang', 'dataKey', 'itemID']
+F_SVG_TAGS = ['g', 'text', 'path', 'linearGradient', 'circle', 'a', 'foreignObject', 'foreignObject']
+F_MATH_TAGS = ['mi', 'mrow', 'mo', 'mi']
+XLINK_NS = 'http://www.w3.org/1999/xlink'
+
+
+def has_upper(k):
+    return any('A' <= c <= 'Z' for c in k)
+
+
+def ascii_lower(k):
+    return ''.join(chr(ord(c) + 32) if 'A' <= c <= 'Z' else c for c in k)
+
+
+def spell_name(r, base):
+    """A spelling of the lower-case name `base`; most spellings differ from it in the case of ASCII letters only."""
+    x = r.random()
+    if x < 0.3 and base in N_CAMEL:
+        return N_CAMEL[base]
+    if x < 0.45:
+        return base.upper() if base.isascii() else gen.swapcase_some(r, base)
+    if x < 0.55:
+        return base[:1].upper() + base[1:]
+    if x < 0.85:
+        return gen.swapcase_some(r, base)
+    return base
+
+
+def name_pool(r):
+    """Attribute names of one document: 2-3 lower-case names, each in 2-3 spellings (usually the lower-case one among
+    them), so that elements differ in exactly the spelling of a name; rarely a pair that differs in a NON-ASCII letter
+    or look-alike (two different names under every reading)."""
+    pool = []
+    for base in r.sample(N_BASES, r.choice([2, 2, 3])):
+        sp = {spell_name(r, base) for _ in range(r.choice([2, 3]))}
+        if r.random() < 0.6:
+            sp.add(base)
+        pool += sorted(sp)
+    if r.random() < 0.15:
+        pool += list(r.choice(N_NON_ASCII))
+    return pool
+
+
+def set_names(r, nodes, pool, ns_p=0.0):
+    """Abstract forest with mixed-case attribute names: on 75% of the elements some of the generated attributes are
+    re-spelled (ID, Class, hRef ...) and 1-2 attributes of the document's name pool are added; 12% of those elements
+    carry TWO spellings of one name, with different values (possible through the API: attrs is a dict keyed by the
+    exact spelling).  With probability ns_p an added attribute is namespaced ([prefix, local name, namespace])."""
+    out = []
+    for n in nodes:
+        if n[0] != 'e':
+            out.append(n)
+            continue
+        attrs = list(n[4])
+        if r.random() < 0.75:
+            attrs = []
+            for k, v in n[4]:
+                if r.random() < 0.3:
+                    k = spell_name(r, k)
+                    if isinstance(v, list) and r.random() < 0.5:
+                        v = ' '.join(v)
+                attrs.append((k, v))
+            for k in r.sample(pool, r.choice([1, 1, 2])):
+                v = r.choice(N_VALUES)
+                if ascii_lower(k) == 'class' and r.random() < 0.5:
+                    v = r.sample(gen.CLASSES, r.randint(1, 2))
+                elif ascii_lower(k) == 'id' and r.random() < 0.7:
+                    v = r.choice(gen.IDS)
+                if r.random() < ns_p:
+                    k = (r.choice(['xlink', 'x']), k, XLINK_NS)
+                attrs.append((k, v))
+            if r.random() < 0.12:
+                k = r.choice(pool)
+                attrs.append((r.choice([k.swapcase(), ascii_lower(k), k.upper()]), r.choice(N_VALUES)))
+            r.shuffle(attrs)
+            seen = set()
+            attrs = [(k, v) for k, v in attrs if not (k in seen or seen.add(k))]       # a dict holds one value per exact key
+        out.append(('e', n[1], n[2], n[3], attrs, set_names(r, n[5], pool, ns_p)))
+    return out
+
+
+def gen_foreign_doc(r, depth=0, where='html'):
+    """Abstract HTML tree with SVG / MathML islands (and HTML again inside <foreignObject>), to be written as markup.
+    Every element may carry the attributes that the HTML parsing algorithm re-spells in foreign content, WRITTEN in
+    any case: an HTML5 parser stores them as viewBox ... on SVG / MathML elements and lower-cased on HTML elements;
+    html.parser and lxml lower-case all of them; an XML parser keeps what was written."""
+    if where == 'html':
+        name = r.choice(['div', 'p', 'span', 'a', 'li', 'ul', 'b'])
+    elif where == 'svg':
+        name = r.choice(F_SVG_TAGS)
+    else:
+        name = r.choice(F_MATH_TAGS)
+    attrs = gen.gen_attrs(r, rich=False) if r.random() < 0.4 else []
+    if r.random() < 0.7:
+        for k in r.sample(F_ADJUSTED + F_PLAIN, r.choice([1, 1, 2, 3])):
+            x = r.random()
+            k = k if x < 0.5 else k.lower() if x < 0.7 else k.upper() if x < 0.8 else gen.swapcase_some(r, k)
+            if k.lower() not in [a.lower() for a, _ in attrs]:           # markup: one attribute per name, whatever the case
+                attrs.append((k, r.choice(N_VALUES[1:])))
+    kids = []
+    inner = 'html' if name == 'foreignObject' else where
+    if depth < 4:
+        for _ in range(r.randint(1, 3) if depth < 2 else r.randint(0, 2)):
+            x = r.random()
+            if x < 0.2:
+                kids.append(('t', r.choice(['a', 'x y', ' '])))
+            elif x < 0.5 and inner == 'html' and depth < 3:
+                root = r.choice(['svg', 'svg', 'svg', 'math'])
+                sub = gen_foreign_doc(r, depth + 1, root)
+                kids.append(('e', root, None, None, sub[4], sub[5]))
+            else:
+                kids.append(gen_foreign_doc(r, depth + 1, inner))
+    return ('e', name, None, None, attrs, kids)
+
+
+def name_selector(r, k, v, xml, vstats=None):
+    """An attribute selector about the attribute `k` (as the built document spells it; a namespaced key is given as
+    (prefix, local, namespace)) with value `v`.  Returns (selector, namespaces or None).  The selector spells the name
+    as the document does, in lower / upper case, or mangled; for id / class also as #id / .class."""
+    ns = None
+    if isinstance(k, tuple):
+        prefix, local, uri = k
+        x = r.random()
+        if x < 0.4:
+            written, ns = 'xl|' + local, {'xl': uri}
+        elif x < 0.8:
+            written = '*|' + local
+        else:
+            written = prefix + '\\:' + local           # the whole qualified name, colon escaped
+        k = local
+    else:
+        written = k
+    x = r.random()
+    sp = k if x < 0.35 else ascii_lower(k) if x < 0.55 else k.upper() if x < 0.7 else gen.swapcase_some(r, k)
+    if not sp.isascii() and x >= 0.55:
+        sp = gen.swapcase_some(r, k)
+    written = written[:len(written) - len(k)] + sp
+    low = ascii_lower(k)
+    x = r.random()
+    if low == 'id' and x < 0.3 and re_ident(v):
+        return '#' + v, ns
+    if low == 'class' and x < 0.3 and any(re_ident(w) for w in v.split()):
+        return '.' + r.choice([w for w in v.split() if re_ident(w)]), ns
+    if x < 0.45:
+        pad = r.choice(['', '', ' '])
+        return f'[{pad}{written}{pad}]', ns
+    return attr_sel_for_value(r, written, v, vstats), ns
+
+
+def re_ident(v):
+    import re
+    return bool(re.fullmatch(r'[A-Za-z_][A-Za-z0-9_-]*', v))
+
+
+def make_attr_name_cases(rng, n, nstats):
+    """Documents whose attribute NAMES are spelled in mixed case, probed with attribute selectors about an attribute
+    the built document holds.  60% built through the bs4 API (html, html5, xhtml, xml); 40% written as markup with
+    SVG / MathML islands and parsed (html5lib mostly, html.parser, lxml, lxml-xml), half of the HTML-parsed ones then
+    edited through the API (tag[name] = value with a mixed-case name)."""
+    import enc
+    import bs4
+    import warnings
+    import matchcorr
+    cases = []
+    feats = {}
+    nstats.update({'documents': 0, 'cases': 0, 'built': {}, 'attributes': 0, 'attributes_with_upper_case_name': 0,
+                   'attributes_with_upper_case_name_in_non_xml_trees': 0, 'elements_with_two_spellings_of_one_name': 0,
+                   'namespaced_attributes_with_upper_case_name': 0, 'selectors_about_an_upper_case_name_in_a_non_xml_tree': 0,
+                   'selector_spells_name_as_document': 0, 'selector_spells_name_otherwise': 0, 'api_edits_after_parsing': 0})
+    while len(cases) < n:
+        if rng.random() < 0.4:
+            parser = rng.choice(['html5lib', 'html5lib', 'html5lib', 'html.parser', 'lxml', 'xml'])
+            tops = [gen_foreign_doc(rng) for _ in range(rng.choice([1, 1, 2]))]
+            body = gen.to_markup(tops, xml=parser == 'xml')
+            if parser == 'xml':
+                markup = f'<?xml version="1.0"?><root>{body}</root>'
+            elif rng.random() < 0.5:
+                markup = f'<!DOCTYPE html><html><head></head><body>{body}</body></html>'
+            else:
+                markup = body
+            base = {'markup': markup, 'parser': parser}
+            with warnings.catch_warnings():
+                warnings.simplefilter('ignore')
+                probe = bs4.BeautifulSoup(markup, parser)
+            built = parser
+            if parser != 'xml' and rng.random() < 0.5:
+                pels = gen.elements(probe)
+                edits = []
+                for _ in range(rng.randint(1, 3)):
+                    if not pels:
+                        break
+                    e = rng.choice(pels)
+                    k = spell_name(rng, rng.choice(N_BASES + [a.lower() for a in F_ADJUSTED]))
+                    edits.append([enc.path_of(e), k, rng.choice(N_VALUES)])
+                if edits:
+                    base['edits'] = edits
+                    matchcorr.apply_edits(probe, edits)
+                    built += '+api-edits'
+                    nstats['api_edits_after_parsing'] += len(edits)
+            xml = parser == 'xml'
+        else:
+            kind, top = gen.gen_doc(rng, max_depth=rng.choice([2, 3]), fan=rng.choice([2, 3, 4]))
+            top = set_names(rng, top, name_pool(rng), ns_p=0.25 if kind in ('html5', 'xhtml') else 0.0)
+            detached = rng.random() < 0.1
+            base = {'kind': kind, 'tree': top, 'detached': detached}
+            probe = gen.build_doc(kind, top, detached)
+            built = 'api:' + kind
+            xml = kind in ('xml', 'xhtml')
+        els = gen.elements(probe)
+        cands = []
+        for e in els:
+            lows = [ascii_lower(str(k)) for k in e.attrs]
+            if len(set(lows)) < len(lows):
+                nstats['elements_with_two_spellings_of_one_name'] += 1
+            for k, v in e.attrs.items():
+                whole = ' '.join(v) if isinstance(v, (list, tuple)) else v
+                if not isinstance(whole, str):
+                    continue
+                nsu = getattr(k, 'namespace', None)
+                key = (k.prefix, k.name, nsu) if nsu and getattr(k, 'prefix', None) and getattr(k, 'name', None) else str(k)
+                cands.append((key, whole))
+        nstats['attributes'] += len(cands)
+        upper = [c for c in cands if has_upper(c[0][1] if isinstance(c[0], tuple) else c[0])]
+        nstats['attributes_with_upper_case_name'] += len(upper)
+        if not xml:
+            nstats['attributes_with_upper_case_name_in_non_xml_trees'] += len(upper)
+        nstats['namespaced_attributes_with_upper_case_name'] += sum(1 for c in upper if isinstance(c[0], tuple))
+        if not cands:
+            continue
+        nstats['documents'] += 1
+        nstats['built'][built] = nstats['built'].get(built, 0) + 1
+        # names that occur in the document in another spelling as well: what tells the spellings apart is the point
+        for _ in range(6):
+            k, v = rng.choice(upper) if upper and rng.random() < 0.75 else rng.choice(cands)
+            a, ns = name_selector(rng, k, v, xml)
+            local = k[1] if isinstance(k, tuple) else k
+            if has_upper(local) and not xml:
+                nstats['selectors_about_an_upper_case_name_in_a_non_xml_tree'] += 1
+            nstats['selector_spells_name_as_document' if local in a else 'selector_spells_name_otherwise'] += 1
+            k2, v2 = rng.choice(cands)
+            a2, ns2 = name_selector(rng, k2, v2, xml)
+            if ns2 and not ns:
+                ns = ns2
+            x = rng.random()
+            if x < 0.4:
+                sel = a
+            else:
+                sel = rng.choice([rng.choice(gen.TAGS) + a, '*' + a, a + a2, f'{a}, {a2}', f':not({a})', f'*:not({a}):not({a2})',
+                                  f':is({a}, {gen.gen_complex(rng, 2, feats)})', f':is({a}){a2}', f'{a} > *', f'{a} ~ {a2}',
+                                  f'{a} {a2}', f':has(> {a})', f':has({a})', f':has({a}, + {a2})', f'* > {a}', f'{a} + *',
+                                  f':where({a}) *', f':not(:not({a}))'])
+            queries = [('select', [], 0)]
+            queries.append(('select', enc.path_of(rng.choice(els)), 0))
+            queries.append(('match', enc.path_of(rng.choice(els)), 0))
+            queries.append(('match', enc.path_of(rng.choice(els)), 0))
+            case = dict(base, selector=sel, queries=queries)
+            if ns:
+                case['ns'] = ns
+            cases.append(case)
+    nstats['cases'] = n
+    return cases[:n]
+
+
 def run(chk):
     stats = {}
     chk.coverage['repeated_content'] = stats
     vstats = {}
     chk.coverage['structured_attribute_values'] = vstats
+    nstats = {}
+    chk.coverage['mixed_case_attribute_names'] = nstats
 
     def mk(rng, n):
-        return make_cases(rng, n, stats, vstats)
+        return make_cases(rng, n, stats, vstats, nstats)
     return common_match.run(chk, PID, SOURCES, mk, 2400, 120000, RULE,
                             'SoupVerif.Properties.C01 (model ≡ specification) / correspondence PY select ≡ Model select')
 
